@@ -4,13 +4,15 @@ import cfg_engine
 from props._cfg_common import TRUSTED, ASSUMPTIONS, TECHNIQUE
 
 PROP = "C08"
-LEVEL = "other"
-THEOREMS = {"Properties.C08": ["C08_member_oracle", "C08_generate_epsilon", "C08_cyk"]}
-LEVEL_TEXT = ("Partial: a Coq theorem shows that the chart-saturation membership function is exactly derivability from the start symbol for ARBITRARY "
-              "grammars and words (the specification-level model of contains, the empty word included). pyformlang's own route (normal form + CYK) is "
-              "mirrored in the model and evaluated on every case, but its language preservation is only partly proved (see C09). contains/__contains__/"
-              "generate_epsilon are compared with the certified function on every generated grammar and word.")
-LEVEL_NOTE = "Trusted: Coq kernel; hand-written model validated by correspondence; Python harness. The proof is about the chart model, not about the CNF+CYK route."
+LEVEL = "proof"
+THEOREMS = {"Properties.C08": ["C08_member_oracle", "C08_generate_epsilon", "C08_cyk", "C08_contains"]}
+LEVEL_TEXT = ("Proof + correspondence: C08_contains shows that the mirrored model of CFG.contains (generate_epsilon for the empty word; otherwise "
+              "to_normal_form = fast-path test, five-stage clean-up, terminal lifting, binarisation with the suffix cache, then the CYK table) returns "
+              "True exactly when the start symbol derives the word, for every grammar and word on which the normal-form recursion finishes within its "
+              "fuel; C08_member_oracle gives an independent certified membership function for arbitrary grammars. contains/__contains__/generate_epsilon "
+              "of pyformlang are compared with both on every generated grammar and word (this also checks that the fuel always suffices).")
+LEVEL_NOTE = ("Trusted: Coq kernel; hand-written model validated by correspondence (the proof is about the model); Python harness. Not proved: that the "
+              "normal-form recursion always finishes after one clean-up (pyformlang would recurse for ever otherwise; checked per case).")
 RULE = ("random grammars (1-4 variables, 1-3 terminals, 1-8 productions, bodies 0-4; profiles plain/eps/unit/unitcycle/recursive/useless/longshared/"
         "nostartprod/cnf; plain and adversarial names) x all words up to length 4 (quick) / 5 (thorough) over the terminals plus an unknown symbol; "
         "non-trivial = at least 2 productions and a body of length >= 2")
